@@ -211,7 +211,7 @@ PROPS["C12"] = {
     "overrides": [(r"_t_", {"mem_gb": 40, "timeout": {"quick": 1500, "thorough": 5400}})],
     "functions": ["BitAnd/BitOr for &SeqSlice<Iupac>", "Seq::bit_and/bit_or", "contains on Seq<Iupac> and SeqSlice<Iupac>", "Iupac one-hot encoding, complement table"],
     "bounds": {"quick": "symbols: all 256 pairs decided by the solver (union, intersection, gap for the empty set, complement distributes); sequences: borrowed "
-                        "operands of ONE symbol at independent offsets (0/4 and 15/7, 15 = last symbol of a word), owned operands (bit_or/bit_and) of 2 symbols, "
+                        "operands of ONE symbol at independent offsets (0/4 and 15/7, 15 = last symbol of a word), owned operands (bit_or/bit_and) of 2 symbols and of 16 symbols (each operand one fully symbolic storage word, filling it exactly), "
                         "contains for 1-symbol operands (borrowed and owned pattern) and a length mismatch; symbolic content, symbolic probe position",
                "thorough": "adds one borrowed `&` on 2-symbol operands at a word-straddling offset (30 GB, ~25 min), empty operands and the other "
                            "length-mismatch direction; 3-4 symbol borrowed operands and multi-symbol contains are written (c12_x_*) but in no tier: "
